@@ -147,7 +147,10 @@ static void one_run(const std::string &prof, uint64_t seed, const JV *replay, Ag
   }
   j.end_obj();
   printf("RUN %s\n", j.s.c_str());
-  if (getenv("SIM_DUMP_TX")) for (auto &t : W.txs) fprintf(stderr, "TX t=%lld fd=%d srv=%d %s %s type=%d attempt=%d beh=%s off=%zu len=%zu\n", (long long)t.t, t.fd, t.server, t.tcp ? "tcp" : "udp", t.qname_lc.c_str(), t.msg.qd.empty() ? -1 : t.msg.qd[0].type, t.attempt, beh_name[t.behaviour], t.stream_off, t.wire.size());
+  if (getenv("SIM_DUMP_TX")) for (auto &t : W.txs) {
+    std::string ck; if (const dnsref::RR *o = t.msg.opt()) { ck = "opt"; for (auto &op : o->opts) if (op.code == 10) ck = "ck=" + hexs(op.data); } else ck = "noopt";
+    fprintf(stderr, "TX t=%lld fd=%d srv=%d %s %s type=%d attempt=%d beh=%s off=%zu len=%zu %s src=%s\n", (long long)t.t, t.fd, t.server, t.tcp ? "tcp" : "udp", t.qname_lc.c_str(), t.msg.qd.empty() ? -1 : t.msg.qd[0].type, t.attempt, beh_name[t.behaviour], t.stream_off, t.wire.size(), ck.c_str(), t.src_ip.c_str());
+  }
   if (getenv("SIM_DUMP_CALLS")) {
     FILE *f = fopen(getenv("SIM_DUMP_CALLS"), "w");
     if (f) { for (auto &c : W.calls) fprintf(f, "%u t=%lld tid=%d call=%d fd=%d res=%ld err=%d a=%ld b=%ld\n", c.seq, (long long)c.t, c.tid, c.call, c.fd, c.res, c.err, c.a, c.b); fclose(f); }
